@@ -632,4 +632,44 @@ func runC08(r *Run) {
 		}
 		r.atLeast("sub-app handler reads", n, 1)
 	})
+
+	r.rule("R6", "nested mounts are registered under their full prefix: the prefix handed down the recursion is the key the sub-app was registered under (E5)", func() {
+		f := r.Fn("", "(*App).appendSubAppLists")
+		var keys []ssa.Value
+		for _, in := range instrsWhereOne(f, func(in ssa.Instruction) bool { _, ok := in.(*ssa.MapUpdate); return ok }) {
+			mu := in.(*ssa.MapUpdate)
+			if loadOfField(mu.Map, "mountFields.appList") {
+				keys = append(keys, mu.Key)
+			}
+		}
+		r.need(len(keys) >= 1, "appendSubAppLists registers sub-apps in mountFields.appList")
+		n := 0
+		for _, c := range callsIn(f, false) {
+			if c.Common.StaticCallee() != f {
+				continue
+			}
+			n++
+			var passed []ssa.Value
+			last := c.Common.Args[len(c.Common.Args)-1]
+			if sl, ok := last.(*ssa.Slice); ok {
+				if al, ok := sl.X.(*ssa.Alloc); ok {
+					for _, st := range storesInto(al) {
+						passed = append(passed, st.Val)
+					}
+				}
+			}
+			okSame := len(passed) == 1
+			if okSame {
+				okSame = false
+				for _, k := range keys {
+					if k == passed[0] {
+						okSame = true
+					}
+				}
+			}
+			r.check(okSame, fmt.Sprintf("appendSubAppLists:recursion#%d:full-prefix", n), r.pos(c.Instr), "the recursion is given the key the sub-app was just registered under",
+				"the prefix handed to the recursive call is not the key the sub-app was registered under: a grandchild mounted at /api/sub/third is registered under /sub/third, so its error handler is chosen for foreign paths and (depending on map order) not for its own")
+		}
+		r.atLeast("recursive calls", n, 1)
+	})
 }
